@@ -774,7 +774,7 @@ pub fn run(args: &Args) -> i32 {
     "case",
     "obs",
   );
-  out.per_shard = 40;
+  out.per_shard = 12;
   let thorough = args.tier == "thorough";
   let mut idx = 0usize;
   for spec in corpus(thorough) {
